@@ -524,6 +524,21 @@ Definition rebalance (s : st) (place : placement) : st * bres * list attempt :=
       end
   end.
 
+(* ---------- namespace creation: pd_api.go CreateNamespace -> checkAndUpdateNamespacePartitions ->
+   place_driver.go allocNamespaceRaftNodes (where start layouts come from) ---------- *)
+Definition empty_info : rinfo := mkInfo [] [] [] 0 0.
+(* replicaInfo.RaftNodes = proposed list; for each: MaxRaftID++, RaftIDs[nid] = MaxRaftID; written unless not a quorum *)
+Definition create_partition (replica : N) (l : list N) : option rinfo :=
+  let i := fold_left add_node l empty_info in
+  if len (isr i) <=? replica / 2 then None else Some i.
+(* ncur = number of usable data nodes; place = the placement function's lists, one per partition *)
+Definition create_namespace (replica ncur : N) (place : option (list (list N))) : code * list (option rinfo) :=
+  if ncur <? replica then (CNoNode, [])
+  else match place with
+       | None => (CRegErr, [])
+       | Some ls => (COk, map (create_partition replica) ls)
+       end.
+
 (* ---------- events ---------- *)
 Inductive event :=
   | ENodes (l : list N)
